@@ -245,7 +245,12 @@ def group_digest(T, g, full=True):
 
 def table_digest(T, full=True, detail=False):
     out = {}
+    t = table(T)
     for g in CANON_ORDER:
+        # a private table is only bound by the property for the groups it has initialised (the neutron digest of an
+        # uninitialised private table would only measure the class-level placeholder 3000 times)
+        if T != "pub" and GUARD[g] is not None and GUARD[g] not in t.properties and g != "xray":
+            continue
         parts = group_digest(T, g, full)
         out[g] = h("\n".join(parts))
         if detail:
